@@ -521,15 +521,20 @@ def rule_initial(ctx: Ctx):
         trg = trigger_param(tr)
         found = False
         for p in ctx.paths(tr, exc_edges="none"):
+            from ..kernel import initial_test
+
             for b in p.of("branch"):
                 t = b.term
-                if isinstance(t, ast.Compare) and len(t.ops) == 1 and isinstance(t.ops[0], ast.Eq):
+                it_ = initial_test(t)
+                if it_ is not None:
                     sides = [t.left, t.comparators[0]]
                     lit = [s for s in sides if isinstance(s, ast.Constant) and isinstance(s.value, str)]
                     other = [s for s in sides if not isinstance(s, ast.Constant)]
-                    if lit and other and xshow(other[0], p.events) == f"{trg}.event":
-                        literals[f"{eng.name}._trigger"] = lit[0].value
-                        if not b.x["taken"]:
+                    by_name = bool(lit) and bool(other) and xshow(other[0], p.events) == f"{trg}.event"
+                    by_identity = not lit and any(show(s) == trg for s in sides)
+                    if by_name or by_identity:
+                        literals[f"{eng.name}._trigger"] = lit[0].value if lit else literals.get("start")
+                        if b.x["taken"] is not it_:
                             continue
                         found = True
                         calls = [e for e in p.events[b.idx:] if e.kind == "call"]
@@ -643,4 +648,13 @@ def rule_awaited_once(ctx: Ctx):
     c05.rule_wrapper(ctx, rule="C02.once")
 
 
-RULES = [rule_order, rule_view, rule_plumbing, rule_keys, rule_support, rule_scope, rule_initial, rule_once, rule_providers, rule_awaited_once]
+def rule_own_event_view(ctx: Ctx):
+    """C02.view: the event/source/target/state a callback sees are those of ITS event: values a caller passes under the
+    reserved names (e.g. kwargs forwarded from a parent event) never replace them."""
+    from . import c07
+
+    c07.rule_reserved(ctx, rule="C02.view")
+    c07.rule_layer(ctx, rule="C02.view")
+
+
+RULES = [rule_own_event_view, rule_order, rule_view, rule_plumbing, rule_keys, rule_support, rule_scope, rule_initial, rule_once, rule_providers, rule_awaited_once]
